@@ -5,13 +5,17 @@
 EXTENDS Integers, Sequences, FiniteSets, TLC
 
 Auths == {"openid", "kerberos", "local", "ntlm"}
-\* c: [auth, tlsDisabled, tokenAuth, signedSel, queryKey, keytab, nhosts]
+\* c: [auth, tlsDisabled, tokenAuth, sel, queryKey, keytab, nhosts]
+\* sel is the host-selection mode: the four documented ones, and "other" for a word that is none of them (the gateway
+\* may refuse it or start; if it starts, the refusal reasons below still apply - in particular a host list is needed
+\* whatever the mode)
+Sels == {"roundrobin", "signed", "unsigned", "any", "other"}
 Reasons(c) ==
   (IF "openid" \in c.auth /\ ~c.tokenAuth THEN {"openid-without-tokenauth"} ELSE {})
   \cup (IF "local" \in c.auth /\ c.tlsDisabled THEN {"local-without-tls"} ELSE {})
   \cup (IF "ntlm" \in c.auth /\ "kerberos" \in c.auth THEN {"ntlm-with-kerberos"} ELSE {})
   \cup (IF "kerberos" \in c.auth /\ ~c.keytab THEN {"kerberos-without-keytab"} ELSE {})
-  \cup (IF c.signedSel /\ ~c.queryKey THEN {"signed-without-querykey"} ELSE {})
+  \cup (IF c.sel = "signed" /\ ~c.queryKey THEN {"signed-without-querykey"} ELSE {})
   \cup (IF c.nhosts = 0 THEN {"no-hosts"} ELSE {})
 Refuse(c) == Reasons(c) # {}
 
@@ -34,7 +38,7 @@ KeyKept(len) == len = 32
 
 \* ---- the lattice as a model: every configuration is an initial state ----------
 VARIABLE c
-Cfgs == [auth : (SUBSET Auths) \ {{}}, tlsDisabled : BOOLEAN, tokenAuth : BOOLEAN, signedSel : BOOLEAN, queryKey : BOOLEAN,
+Cfgs == [auth : (SUBSET Auths) \ {{}}, tlsDisabled : BOOLEAN, tokenAuth : BOOLEAN, sel : Sels, queryKey : BOOLEAN,
          keytab : BOOLEAN, nhosts : 0..2, spell : Spellings]
 Init == c \in Cfgs
 Next == UNCHANGED c
